@@ -23,31 +23,28 @@ pub(crate) fn alloc(ptr: *mut u8, location: Location) {
             allocated: location,
         });
 
-        let allocation = Allocation { state };
+        trace!(?state, ?ptr, %location, "alloc");
 
-        trace!(?allocation.state, ?ptr, %location, "alloc");
-
-        let prev = execution.raw_allocations.insert(ptr as usize, allocation);
+        // The map holds the object reference rather than an `Allocation`: the
+        // map is dropped outside of the execution context when an iteration
+        // fails, where `Allocation::drop` must not run.
+        let prev = execution.raw_allocations.insert(ptr as usize, state);
         assert!(prev.is_none(), "pointer already tracked");
     });
 }
 
 /// Track a raw deallocation
 pub(crate) fn dealloc(ptr: *mut u8, location: Location) {
-    let allocation =
-        rt::execution(
-            |execution| match execution.raw_allocations.remove(&(ptr as usize)) {
-                Some(allocation) => {
-                    trace!(state = ?allocation.state, ?ptr, %location, "dealloc");
+    rt::execution(
+        |execution| match execution.raw_allocations.remove(&(ptr as usize)) {
+            Some(state) => {
+                trace!(?state, ?ptr, %location, "dealloc");
 
-                    allocation
-                }
-                None => panic!("pointer not tracked"),
-            },
-        );
-
-    // Drop outside of the `rt::execution` block
-    drop(allocation);
+                state.get_mut(&mut execution.objects).is_dropped = true;
+            }
+            None => panic!("pointer not tracked"),
+        },
+    );
 }
 
 impl Allocation {
